@@ -88,6 +88,7 @@ EXEC = [
     ("assign_str", "{n1} = '{s1}' // {n2}", "fix one"),
     ("assign_dq", "{n1} = \"{s1}\"", "fix"),
     ("assign_real", "{n1} = {d1}.{d2}e-{d3} * {n2}", "fix one"),
+    ("assign_logic_paren", "{n1} = ({n2} .and. .true.) .or. {n3}({d1}, .false.)", "fix"),
     ("assign_logic", "{n1} = {n2} .and. .not. {n3}", "fix one"),
     ("assign_rel", "{n1} = {n2} >= {d1} .or. {n3} /= {d2}", "fix"),
     ("assign_pow", "{n1} = -{n2} ** {d1} ** {n3}", "fix one"),
